@@ -1,8 +1,10 @@
 (* NonVacuous/C13.v — every C13 theorem with a hypothesis, on concrete device states and messages.
    Each example: hypotheses /\ instantiated conclusion (by applying the theorem).
    The equivalence C13_full_stack_refines_iff is exemplified in both directions.
+   C13_full_stack_all_messages / _exact are instantiated on the message ASTs of CommonDev.v (end of the file);
+   the equivalence of _exact is exemplified for both values of stray_separator.
    Skipped (no implication premise): C13_syst_err_next, C13_syst_err_count, C13_syst_err_all, C13_esr_read_clears. *)
-From VF Require Import Base Gen_Errors ErrSpec Status Status_proofs Contrib ContribSpec Contrib_proofs.
+From VF Require Import Base Gen_Errors ErrSpec Status Status_proofs Contrib ContribSpec Contrib_proofs Grammar MessageSpec ContribMeaning.
 From VF.NonVacuous Require Import Common CommonDev.
 From VF.Properties Require C13.
 Import C13.
@@ -70,3 +72,83 @@ Qed.
 Print Assumptions C13_fail_queues_once_nonvacuous.
 Print Assumptions C13_ok_queues_nothing_nonvacuous.
 Print Assumptions C13_full_stack_refines_nonvacuous.
+
+(* ------------------------------------------------------------------ *)
+(* the refinement for ALL well-formed messages, on the session of ASTs of CommonDev.v *)
+(* ------------------------------------------------------------------ *)
+(* after "*ESE 32;*ERR -113;*ESR?" and ":SYST:ERR:COUN?;*STB?;*SRE 16<NL>" from power-on, the message
+   "stat:oper:enab 5;ptr 3;:syst:err?;*ese 300;*ese?" (short forms in lower case, a relative header, a default node
+   omitted, an argument out of range): the full stack computes what the operation list says *)
+Example C13_full_stack_all_messages_nonvacuous :
+  wf_msg dm3 = true /\ message_ops dm3 = Some ex_us3 /\
+  render_msg dm3 = bs "stat:oper:enab 5;ptr 3;:syst:err?;*ese 300;*ese?" /\
+  ex_us3 = [SReg Oper (RWrEnable 5); SReg Oper (RWrPtr 3); SErrNext; SFail (std_error DataOutOfRange)] /\
+  dev_message (session_msgs dev_init ex_session) true (render_msg dm3)
+  = Val (with_stray dm3 (op_message (session_msgs dev_init ex_session) true ex_us3)) /\
+  session_msgs dev_init ex_session = ex_mid /\
+  with_stray dm3 (op_message ex_mid true ex_us3)
+  = (ex_final3, bs "-113,""Undefined header""", Some (std_error DataOutOfRange)) /\
+  esr ex_final3 = 48 /\ length (queue ex_final3) = 1%nat /\ queue ex_final3 = [std_error DataOutOfRange] /\
+  enable (oper ex_final3) = 5 /\ ptr_filter (oper ex_final3) = 3 /\ ese ex_final3 = 32.
+Proof.
+  assert (h : with_stray dm3 (op_message ex_mid true ex_us3)
+              = (ex_final3, bs "-113,""Undefined header""", Some (std_error DataOutOfRange)))
+    by (unfold with_stray; rewrite ex_op_message3, dm3_not_stray; vm_compute; reflexivity).
+  exact (conj dm3_wf (conj dm3_ops (conj (proj1 (proj2 (proj2 dm_texts))) (conj eq_refl
+    (conj (C13_full_stack_all_messages ex_session dm3 true ex_us3 dm3_wf dm3_ops)
+    (conj ex_session_mid (conj h (conj eq_refl (conj eq_refl (conj eq_refl (conj eq_refl (conj eq_refl eq_refl)))))))))))).
+Qed.
+
+(* in the same state, "*ESE?;*CLS?": the operation-level result, plus exactly the unit separator that the dispatcher
+   wrote before it invoked the (non-existent) query form of *CLS *)
+Example C13_full_stack_all_messages_nonvacuous_stray :
+  wf_msg dm_stray = true /\ message_ops dm_stray = Some ex_us_stray /\
+  render_msg dm_stray = bs "*ESE?;*CLS?" /\ ex_us_stray = [SRdEse; SFail (std_error UndefinedHeader)] /\
+  dev_message (session_msgs dev_init ex_session) true (render_msg dm_stray)
+  = Val (with_stray dm_stray (op_message (session_msgs dev_init ex_session) true ex_us_stray)) /\
+  session_msgs dev_init ex_session = ex_mid /\
+  op_message ex_mid true ex_us_stray = (ex_final_stray, bs "32", Some (std_error UndefinedHeader)) /\
+  with_stray dm_stray (op_message ex_mid true ex_us_stray) = (ex_final_stray, bs "32;", Some (std_error UndefinedHeader)) /\
+  esr ex_final_stray = 32 /\ length (queue ex_final_stray) = 2%nat.
+Proof.
+  assert (h : with_stray dm_stray (op_message ex_mid true ex_us_stray)
+              = (ex_final_stray, bs "32;", Some (std_error UndefinedHeader)))
+    by (unfold with_stray; rewrite ex_op_message_stray, dm_stray_stray; vm_compute; reflexivity).
+  exact (conj dm_stray_wf (conj dm_stray_ops (conj (proj2 (proj2 (proj2 dm_texts))) (conj eq_refl
+    (conj (C13_full_stack_all_messages ex_session dm_stray true ex_us_stray dm_stray_wf dm_stray_ops)
+    (conj ex_session_mid (conj ex_op_message_stray (conj h (conj eq_refl eq_refl))))))))).
+Qed.
+
+(* the exact characterisation, [stray_separator m = true]: the two sides differ, and exactly by the `;` *)
+Example C13_full_stack_all_messages_exact_nonvacuous :
+  wf_msg dm_stray = true /\ queue_printable ex_mid = true /\ message_ops dm_stray = Some ex_us_stray /\
+  (dev_message ex_mid true (render_msg dm_stray) = Val (op_message ex_mid true ex_us_stray) <-> stray_separator dm_stray = false) /\
+  stray_separator dm_stray = true /\
+  dev_message ex_mid true (render_msg dm_stray) <> Val (op_message ex_mid true ex_us_stray) /\
+  dev_message ex_mid true (render_msg dm_stray) = Val (ex_final_stray, bs "32" ++ [59], Some (std_error UndefinedHeader)) /\
+  op_message ex_mid true ex_us_stray = (ex_final_stray, bs "32", Some (std_error UndefinedHeader)).
+Proof.
+  pose proof (C13_full_stack_all_messages_exact dm_stray true ex_mid ex_us_stray dm_stray_wf ex_mid_printable dm_stray_ops) as E.
+  assert (hne : dev_message ex_mid true (render_msg dm_stray) <> Val (op_message ex_mid true ex_us_stray)).
+  { intro H. apply (proj1 E) in H. rewrite dm_stray_stray in H. discriminate H. }
+  exact (conj dm_stray_wf (conj ex_mid_printable (conj dm_stray_ops (conj E (conj dm_stray_stray (conj hne
+    (conj ex_dev_message_stray ex_op_message_stray))))))).
+Qed.
+
+(* ... and [stray_separator m = false] (the five-unit message above, which also fails, but in a command form): equal *)
+Example C13_full_stack_all_messages_exact_nonvacuous_equal :
+  wf_msg dm3 = true /\ queue_printable ex_mid = true /\ message_ops dm3 = Some ex_us3 /\
+  (dev_message ex_mid true (render_msg dm3) = Val (op_message ex_mid true ex_us3) <-> stray_separator dm3 = false) /\
+  stray_separator dm3 = false /\
+  dev_message ex_mid true (render_msg dm3) = Val (op_message ex_mid true ex_us3) /\
+  op_message ex_mid true ex_us3 = (ex_final3, bs "-113,""Undefined header""", Some (std_error DataOutOfRange)).
+Proof.
+  pose proof (C13_full_stack_all_messages_exact dm3 true ex_mid ex_us3 dm3_wf ex_mid_printable dm3_ops) as E.
+  exact (conj dm3_wf (conj ex_mid_printable (conj dm3_ops (conj E (conj dm3_not_stray (conj (proj2 E dm3_not_stray)
+    ex_op_message3)))))).
+Qed.
+
+Print Assumptions C13_full_stack_all_messages_nonvacuous.
+Print Assumptions C13_full_stack_all_messages_nonvacuous_stray.
+Print Assumptions C13_full_stack_all_messages_exact_nonvacuous.
+Print Assumptions C13_full_stack_all_messages_exact_nonvacuous_equal.
